@@ -74,6 +74,10 @@ char *cmd_pipe(char *cmd, char *ibuf, int oproc)
 	int ifd = -1, ofd = -1;
 	int slen = ibuf != NULL ? strlen(ibuf) : 0;
 	int nw = 0;
+#ifdef NEATVI_VERIF
+	if (getenv("NEATVI_VERIF_SH"))	/* monitors substitute a whitelist shell */
+		argv[0] = getenv("NEATVI_VERIF_SH");
+#endif
 	int pid = cmd_make(argv, ibuf != NULL ? &ifd : NULL, oproc ? &ofd : NULL);
 	if (pid <= 0)
 		return NULL;
